@@ -97,6 +97,9 @@ structure KView where
   /-- pixel dwell time of the source in ns (samples per pixel × sample period), what an unprocessed kymograph
       reads off its info wave -/
   pixelTimeNs : Int := 0
+  /-- the calibrated pixel size as the DOUBLE the code holds (`_calibration.value`): products and quotients are
+      rounded where the code rounds them, so that `int(lower / px)` can be executed as the code executes it -/
+  pxF : Float := 0.0
 deriving Repr
 
 def KView.numLines (v : KView) : Nat := numCols v.img
@@ -148,6 +151,24 @@ def KView.crop (v : KView) (lo hi : Rat) : KRes :=
   if rows.length = 0 then .err .indexError
   else .view { v with img := rows, processed := true, offset := v.offset + (lower : Rat) * v.px }
 
+/-- a double that holds an integer, as that integer -/
+def f2i (x : Float) : Int := if x < 0 then -(((-x).toUInt64.toNat : Nat) : Int) else ((x.toUInt64.toNat : Nat) : Int)
+
+/-- a rational as the nearest double (numerator and denominator below 2⁵³: one correctly rounded division) -/
+def ratToFloat (r : Rat) : Float := Float.ofInt r.num / Float.ofNat r.den
+
+/-- `crop_by_distance(lower, upper)` **as executed in binary floating point**: the row indices are
+    `int(lower / px)` and `int(ceil(upper / px))` with the IEEE quotient of the two doubles — which, for a pixel size
+    that is not a binary fraction, can differ from the floor of the exact quotient (`1.0 / 0.1` is `10.0`).  Same row
+    selection as `KView.crop`. -/
+def KView.cropF (v : KView) (lo hi : Float) : KRes :=
+  if lo < 0 || hi < 0 then .err .valueError else
+  let lower : Int := f2i (Float.floor (lo / v.pxF))
+  let upper : Int := f2i (Float.ceil (hi / v.pxF))
+  let rows := pySlice v.img lower upper
+  if rows.length = 0 then .err .indexError
+  else .view { v with img := rows, processed := true, offset := v.offset + (lower : Rat) * v.px }
+
 /-- `flip()`: the image rows are reversed; per-pixel timestamps are left as they are (observation O1),
     so the model flips the counts only. -/
 def KView.flip (v : KView) : KRes :=
@@ -163,6 +184,7 @@ def KView.down (v : KView) (tf pf : Nat) : KRes :=
     img := blockReduce v.img pf tf,
     rangesDefined := v.rangesDefined && tf == 1,
     px := if v.unit = 2 then v.px else v.px * pf,
+    pxF := if v.unit = 2 then v.pxF else v.pxF * pf.toFloat,
     pxUm := v.pxUm.map (· * pf),
     lineTimeNs := v.lineTimeNs * tf,
     processed := true }
@@ -196,6 +218,7 @@ def KView.downWith (v : KView) (red : Red) (tf pf : Nat) : KRes :=
     img := blockReduceWith red v.img pf tf,
     rangesDefined := v.rangesDefined && tf == 1,
     px := if v.unit = 2 then v.px else v.px * pf,
+    pxF := if v.unit = 2 then v.pxF else v.pxF * pf.toFloat,
     pxUm := v.pxUm.map (· * pf),
     lineTimeNs := v.lineTimeNs * tf,
     processed := true }
@@ -204,11 +227,12 @@ def KView.downWith (v : KView) (red : Red) (tf pf : Nat) : KRes :=
 def KView.kbp (v : KView) (len : Rat) : KRes :=
   if v.unit = 1 then .err .runtimeError
   else if v.pixelsPerLine = 0 then .err .valueError
-  else .view { v with px := len / v.pixelsPerLine, unit := 1 }
+  else .view { v with px := len / v.pixelsPerLine, unit := 1, pxF := ratToFloat len / v.pixelsPerLine.toFloat }
 
 inductive KOp where
   | slice (a b : Int)
   | crop (lo hi : Rat)
+  | cropF (lo hi : Float)
   | flip
   | down (tf pf : Nat)
   | downWith (red : Red) (tf pf : Nat)
@@ -219,6 +243,7 @@ def KView.apply (v : KView) : KOp → KRes
   | .slice a b => v.sliceTime a b
   | .crop lo hi => v.crop lo hi
   | .flip => v.flip
+  | .cropF lo hi => v.cropF lo hi
   | .down tf pf => v.down tf pf
   | .downWith red tf pf => v.downWith red tf pf
   | .kbp len => v.kbp len
@@ -390,6 +415,7 @@ def kop? (s : String) : Option KOp :=
   | ["slice", a, b] => do let a ← a.toInt?; let b ← b.toInt?; some (.slice a b)
   | ["crop", lo, hi] => do let lo ← rat? (lo.replace "_" "/"); let hi ← rat? (hi.replace "_" "/"); some (.crop lo hi)
   | ["flip"] => some .flip
+  | ["cropf", lo, hi] => do let lo ← float? lo; let hi ← float? hi; some (.cropF lo hi)
   | ["down", tf, pf] => do let tf ← tf.toNat?; let pf ← pf.toNat?; some (.down tf pf)
   | ["downr", red, tf, pf] => do
     let red ← (match red with | "max" => some Red.max | "min" => some Red.min | "ptp" => some Red.ptp | _ => none)
@@ -433,7 +459,7 @@ def handle : List String → Option String
     let lt ← rat? lt; let st ← rat? st
     let ops ← ops.mapM kop?
     let pt ← int? pt
-    let v : KView := ⟨img, true, delta, px, unit, pxum, lt, st, false, 0, pt⟩
+    let v : KView := ⟨img, true, delta, px, unit, pxum, lt, st, false, 0, pt, ratToFloat px⟩
     some (showKRes (runK v ops))
   | "c06.scan" :: frames :: delta :: fastRows :: ops => do
     let frames ← (frames.splitOn "|").mapM (listListOf? pix?)
